@@ -487,6 +487,55 @@ impl Report {
                 )
         };
         let mut merged = merged;
+        // Second pass in a permuted case order (cheap sub-runs only): the subject functions are pure, so a case
+        // that passes in index order but fails after a different predecessor on its thread reveals state carried
+        // across calls (a cache, a static, a reused buffer). Only violations are kept from this pass.
+        if self.one.is_none() && n >= 2 && n <= 1_000_000 && t0.elapsed().as_secs_f64() < 1.5 && std::env::var("AGV_NO_REORDER").is_err() {
+            let mut a = (n as f64 * 0.618_033_988_7) as u64 | 1;
+            fn gcd(mut x: u64, mut y: u64) -> u64 {
+                while y != 0 {
+                    let t = x % y;
+                    x = y;
+                    y = t;
+                }
+                x
+            }
+            while gcd(a, n) != 1 {
+                a += 2;
+            }
+            let first_keys: HashSet<(String, u64)> = merged.violations.iter().map(|v| (v.key.clone(), v.idx)).collect();
+            let first_any: HashSet<String> = merged.violations.iter().map(|v| v.key.clone()).collect();
+            let nchunks = n.div_ceil(chunk);
+            let second: Vec<Violation> = (0..nchunks)
+                .into_par_iter()
+                .fold(
+                    || Local::new(name, ord, 0),
+                    |mut loc, c| {
+                        let lo = c * chunk;
+                        let hi = (lo + chunk).min(n);
+                        for i in lo..hi {
+                            let idx = ((i as u128 * a as u128 + 12345) % n as u128) as u64;
+                            run_case(idx, &mut loc);
+                        }
+                        loc.distinct.clear();
+                        loc
+                    },
+                )
+                .map(|loc| loc.violations)
+                .reduce(Vec::new, |mut x, mut y| {
+                    x.append(&mut y);
+                    x
+                });
+            for mut v in second {
+                if first_keys.contains(&(v.key.clone(), v.idx)) || first_any.contains(&v.key) {
+                    continue; // already reported by the index-order pass
+                }
+                v.detail = json!({"found_only_in_the_permuted_order_pass": true, "case": v.detail, "note": "this case passed in index order: the result depends on what the thread evaluated before; replay re-runs the whole check"});
+                v.key = format!("history:{}", v.key);
+                v.ord = 0;
+                merged.violations.push(v);
+            }
+        }
         let before = self.distinct.lock().unwrap().len();
         self.merge_distinct(&mut merged.distinct);
         let after = self.distinct.lock().unwrap().len();
